@@ -123,6 +123,7 @@ type FV struct {
 	boxed       map[string]Term
 	assumedUsed map[string]bool
 	calleesUsed map[string]bool
+	quietUpdate bool
 }
 
 type Kont func(*State)
